@@ -226,7 +226,9 @@ def hist_fit(
     from kafe2.fit.histogram.container import HistContainer
     from kafe2.fit.histogram.fit import HistFit
 
-    data = HistContainer(n_bins, bin_range, bin_edges, data)
+    if n_bins is not None or bin_range is not None or bin_edges is not None:
+        data = HistContainer(n_bins, bin_range, bin_edges, data)  # raw data, binned as specified
+    # otherwise data is a HistContainer or the result of np.histogram: HistFit takes both as they are
 
     if gauss_approximation is None:
         gauss_approximation = error is not None or error_rel is not None or error_cor is not None or error_cor_rel is not None
